@@ -30,10 +30,33 @@ def tree_keys_and_shape(c, keys, bad):
         bad.append(f"token {c}")
 
 
+PLACEHOLDER = "999"
+
+
+def bool_of_group(t):
+    """Boolean AST (logic.ref_fc's format) of an AST made of format-constraint leaves only"""
+    return ("k", t[1]) if t[0] == "fc" else (t[0], bool_of_group(t[1]), bool_of_group(t[2]))
+
+
+def with_group(e, group):
+    """the reference collection with the placeholder key replaced by the bracketed group that stands in its place in the string"""
+    if e is None or group is None:
+        return e
+    if e[0] == "k":
+        return bool_of_group(group) if e[1] == PLACEHOLDER else e
+    return (e[0], with_group(e[1], group), with_group(e[2], group))
+
+
+def key_ast_of(case):
+    """an AST that has all keys of the string (for building inputs / worlds): with an attached group the group's keys as well"""
+    return ["and", case["ast"], case["group"]] if case.get("group") else case["ast"]
+
+
 def judge_fce(ctx, what, s, ast, asg, fce, wcase):
     """fce: the collected expression (str | None) for (expression, assignment)"""
-    ref = logic.ref_fc(ast, asg, strict_drop=True)
-    alt = logic.ref_fc(ast, asg, strict_drop=False)
+    group = wcase.get("group")
+    ref = with_group(logic.ref_fc(ast, asg, strict_drop=True), group)
+    alt = with_group(logic.ref_fc(ast, asg, strict_drop=False), group)
     if ref != alt:
         ctx.count("silent_corner_cases")  # FC collected inside a non-fulfilled juxtaposition operand: both readings accepted
     if not fce:
@@ -58,7 +81,7 @@ def judge_fce(ctx, what, s, ast, asg, fce, wcase):
     if bad:
         ctx.violation("fc-expression-shape", f"{what}: {s!r} under {asg} yields {fce!r} containing {bad[:3]} (only U/O/X over format-constraint keys allowed)", case=wcase)
         return
-    source_fcs = set(G.keys_of(ast, "fc"))
+    source_fcs = set(G.keys_of(key_ast_of(wcase), "fc")) - ({PLACEHOLDER} if group else set())
     foreign = [k for k in keys if k not in source_fcs]
     if foreign:
         ctx.violation("fc-expression-foreign-key", f"{what}: {s!r} under {asg} yields {fce!r} with keys {foreign} that are no format-constraint keys of the source", case=wcase)
@@ -92,6 +115,7 @@ async def check_expression(ctx, case):
         ctx.violation("valid-expression-not-parsed", f"parse_condition_expression_to_tree({s!r}) {describe(out)[:200]}")
         return
     tree = out[1]
+    key_ast = key_ast_of(case)
     rcs = G.keys_of(ast, "rc")
     asgs = case.get("assignments") or H.assignments_for(rcs, rng, full_up_to=4, sample=60)
     ctx.count("expressions")
@@ -101,7 +125,7 @@ async def check_expression(ctx, case):
         ctx.count("expressions_with_2plus_fc_keys")
     for asg in asgs:
         wcase = dict(case, assignments=[asg])
-        kind, val = H.direct_state(tree, ast, asg)
+        kind, val = H.direct_state(tree, key_ast, asg)
         if kind != "state":
             ctx.violation("valid-expression-raises", f"{s!r} under {asg}: {val!r:.200}", case=wcase)
             return
@@ -113,8 +137,8 @@ async def check_expression(ctx, case):
     # what the property talks about: the expression returned by requirement_constraint_evaluation, fed to format_constraint_evaluation
     for asg in (asgs if len(asgs) <= 6 else rng.sample(asgs, 6)):
         wcase = case
-        fa = {k: rng.random() < 0.5 for k in G.keys_of(ast, "fc")}
-        world = H.world_for(ast, asg, fa)
+        fa = {k: rng.random() < 0.5 for k in G.keys_of(key_ast, "fc")}
+        world = H.world_for(key_ast, asg, fa)
         aout = await H.async_requirement(s, world)
         ctx.count("async_evaluations")
         if aout[0] != "ok":
@@ -126,8 +150,8 @@ async def check_expression(ctx, case):
         if fout[0] != "ok":
             ctx.violation(f"fc-evaluation-raises-{type(fout[1]).__name__}", f"format_constraint_evaluation({fce!r}) (collected from {s!r} under {asg}) {describe(fout)[:200]}", case=wcase)
             continue
-        ref = logic.ref_fc(ast, asg, True)
-        alt = logic.ref_fc(ast, asg, False)
+        ref = with_group(logic.ref_fc(ast, asg, True), case.get("group"))
+        alt = with_group(logic.ref_fc(ast, asg, False), case.get("group"))
         expected = {True if r is None else logic.bool_eval(r, fa) for r in (ref, alt)}
         if fout[1].format_constraints_fulfilled not in expected:
             ctx.violation("fc-expression-meaning", f"format_constraint_evaluation({fce!r}) under {fa} = {fout[1].format_constraints_fulfilled}; direct reading of {s!r} under {asg} gives {sorted(expected)}", case=wcase)
@@ -147,6 +171,36 @@ async def run(ctx):
             rcs = G.keys_of(ast, "rc")
             asg = {k: "F" for k in rcs}
             ctx.sample({"s": case["s"], "all_fulfilled_reference_collection": repr(logic.ref_fc(ast, asg))}, cls="expression")
+    for i in range(ctx.budget(150, 15_000)):
+        case = gen_group_case(rng)
+        if case is not None:
+            ctx.count("expressions_with_an_attached_group")
+            await check_expression(ctx, case)
+            if i % 60 == 0:
+                ctx.sample({"s": case["s"]}, cls="attached-group")
+
+
+def gen_group_case(rng):
+    """a bracketed GROUP of format constraints attached by juxtaposition (to the right of a hint or of an operand with a requirement
+    constraint) instead of a single key: '[1]([901] O [902])'. Built from an expression of the usual domain: one attached key is
+    the placeholder, its text is replaced by the group's"""
+    exact = G.Style(p_redundant=0.0, flat_runs=0.0, spell=0, ws="")
+    for _ in range(200):
+        ast = G.gen_valid(rng, rng.randint(1, 3), G.DEFAULT_POOLS, max_leaves=9, invalid_pred=logic.structurally_invalid, p_fc_leaf=0.2, p_then=0.6)
+        spots = [p for p in G.paths(ast) if G.get_at(ast, p)[0] == "then" and G.get_at(ast, p)[2][0] == "fc" and G.get_at(ast, p)[1][0] != "fc"]
+        if not spots:
+            continue
+        spot = rng.choice(spots)
+        ast = G.replace_at(ast, list(spot) + [2], ["fc", PLACEHOLDER])
+        keys = rng.sample(G.FC_POOL, rng.randint(2, 3))
+        group = ["fc", keys[0]]
+        for k in keys[1:]:
+            group = [rng.choice(["and", "or", "xor"]), group, ["fc", k]] if rng.random() < 0.5 else [rng.choice(["and", "or", "xor"]), ["fc", k], group]
+        text = G.render(ast, rng, exact)
+        if text.count(f"[{PLACEHOLDER}]") != 1:
+            continue
+        return {"ast": ast, "group": group, "s": text.replace(f"[{PLACEHOLDER}]", "(" + G.render(group, rng, exact) + ")")}
+    return None
 
 
 async def small_scope(ctx):
